@@ -16,6 +16,7 @@ limitations under the License.
 
 #include "libcellml/printer.h"
 
+#include <cctype>
 #include <list>
 #include <map>
 #include <regex>
@@ -162,11 +163,47 @@ std::string printConnections(const ComponentMap &componentMap, const VariableMap
     return connections;
 }
 
+std::string removeWhitespaceAroundTags(const std::string &text)
+{
+    // Remove the whitespace that directly follows a '>' or directly precedes a
+    // '<'.
+    // Note: this is done by hand rather than using regular expressions since
+    //       the latter use an amount of stack that grows with the length of
+    //       the whitespace.
+
+    std::string res;
+    size_t i = 0;
+
+    res.reserve(text.size());
+
+    while (i < text.size()) {
+        if (isspace(static_cast<unsigned char>(text[i])) == 0) {
+            res += text[i];
+            ++i;
+        } else {
+            size_t j = i;
+
+            while ((j < text.size()) && (isspace(static_cast<unsigned char>(text[j])) != 0)) {
+                ++j;
+            }
+
+            bool afterTag = !res.empty() && (res.back() == '>');
+            bool beforeTag = (j < text.size()) && (text[j] == '<');
+
+            if (!afterTag && !beforeTag) {
+                res.append(text, i, j - i);
+            }
+
+            i = j;
+        }
+    }
+
+    return res;
+}
+
 std::string Printer::PrinterImpl::printMath(const std::string &math)
 {
     static const std::string wrapElementName = "math_wrap_as_single_root_element";
-    static const std::regex before(">[\\s\n\t]*");
-    static const std::regex after("[\\s\n\t]*<");
     static const std::regex xmlDeclaration(R"|(<\?xml[[:space:]]+version=.*\?>)|");
 
     XmlDocPtr xmlDoc = std::make_shared<XmlDoc>();
@@ -183,8 +220,7 @@ std::string Printer::PrinterImpl::printMath(const std::string &math)
             childNode = childNode->next();
         }
         // Clean whitespace in the math.
-        result = std::regex_replace(result, before, ">");
-        return std::regex_replace(result, after, "<");
+        return removeWhitespaceAroundTags(result);
     } else {
         for (size_t i = 0; i < xmlDoc->xmlErrorCount(); ++i) {
             auto issue = Issue::IssueImpl::create();
